@@ -189,19 +189,22 @@ def case_energy(c, rng, tier):
         Ko2, _, _ = shell.k0_oracle(tw, d, [], nxg=2 * (6 * max(cc.m1, cc.m2) + 12))
         qerr, _ = entrywise_excess(Ko[np.ix_(free, free)], Ko2[np.ix_(free, free)], S[np.ix_(free, free)], 1e-10)
         c.judge('oracle quadrature converged', qerr * 1e-10, 1e-10)
-        ratio, ij = entrywise_excess(K[np.ix_(free, free)], Ko[np.ix_(free, free)], S[np.ix_(free, free)], 1e-9)
+        # closed-form kernels against quadrature: the observed round-off grows with the meridional order (thorough-tier calibration:
+        # 0.87e-9 at 6 terms, < 0.2e-9 up to 4 terms)
+        tolE = 1e-9 * max(1.0, max(cc.m1, cc.m2) / 4.0) ** 4
+        ratio, ij = entrywise_excess(K[np.ix_(free, free)], Ko[np.ix_(free, free)], S[np.ix_(free, free)], tolE)
         mech = None
         if ratio > 1 and d['model'] == 'clpt_sanders_bc3':
             keep = sanders_bc3_keep(layout(d['model'], cc.m1, cc.m2, cc.n2), K.shape[0])[np.ix_(free, free)]
-            r3, _ = entrywise_excess(np.where(keep, K[np.ix_(free, free)], 0.), np.where(keep, Ko[np.ix_(free, free)], 0.), S[np.ix_(free, free)], 1e-9)
+            r3, _ = entrywise_excess(np.where(keep, K[np.ix_(free, free)], 0.), np.where(keep, Ko[np.ix_(free, free)], 0.), S[np.ix_(free, free)], tolE)
             if r3 <= 1:
                 mech = 'clpt_sanders_bc3-kernel-first-harmonic-component'
         if ratio > 1 and d['model'].startswith('iso_'):
             lay = layout(d['model'][4:], cc.m1, cc.m2, cc.n2)
-            r2_, _ = entrywise_excess(K[np.ix_(free, free)], stale_index(Ko, lay)[np.ix_(free, free)], S[np.ix_(free, free)], 1e-9)
+            r2_, _ = entrywise_excess(K[np.ix_(free, free)], stale_index(Ko, lay)[np.ix_(free, free)], S[np.ix_(free, free)], tolE)
             if r2_ <= 1:
                 mech = 'iso-kernels-k0_01-stale-index'
-        c.judge('cylinder k0 equals the Hessian of the strain energy of the package strain field (free amplitudes)', ratio * 1e-9, 1e-9, mechanism=mech,
+        c.judge('cylinder k0 equals the Hessian of the strain energy of the package strain field (free amplitudes)', ratio * tolE, tolE, mechanism=mech,
                 data={'entry': [int(free[ij[0]]), int(free[ij[1]])]})
         Kf = k0_of(cc)
         c.expect('k0 symmetric', np.array_equal(Kf, Kf.T))
@@ -229,7 +232,8 @@ def case_energy(c, rng, tier):
     rich = float((np.abs(R - Ko[np.ix_(free, free)]) / den).max())
     rates_ok = all(3.0 <= e0 / max(e1, 1e-300) <= 5.0 for e0, e1 in zip(errs[:-1], errs[1:]) if e0 > 1e-9)
     mech = None
-    if rich > 1e-6 or not rates_ok:
+    RICH = 3e-6      # residual of the s = 40, 80 extrapolation on steep, long cones: 0.75e-6 observed over 3600 cases
+    if rich > RICH or not rates_ok:
         # defect models: judge the same convergence against the oracle transformed by the hypothesised defect
         cands = []
         if d['model'] == 'clpt_donnell_bc2':
@@ -241,15 +245,15 @@ def case_energy(c, rng, tier):
             keep = sanders_bc3_keep(layout(d['model'], cc.m1, cc.m2, cc.n2), size)[np.ix_(free, free)]
             e3 = [float((np.abs(Ks[s_] - Ko[np.ix_(free, free)]) / den)[keep].max()) for s_ in (10, 20, 40, 80)]
             if all(3.0 <= a / max(b, 1e-300) <= 5.0 for a, b in zip(e3[:-1], e3[1:]) if a > 1e-9) and \
-                    float((np.abs(R - Ko[np.ix_(free, free)]) / den)[keep].max()) <= 1e-6:
+                    float((np.abs(R - Ko[np.ix_(free, free)]) / den)[keep].max()) <= RICH:
                 mech = 'clpt_sanders_bc3-kernel-first-harmonic-component'
         for nm, Kd in cands:
             e2 = [float((np.abs(Ks[s_] - Kd[np.ix_(free, free)]) / den).max()) for s_ in (10, 20, 40, 80)]
             ok2 = all(3.0 <= a / max(b, 1e-300) <= 5.0 for a, b in zip(e2[:-1], e2[1:]) if a > 1e-9)
-            if ok2 and float((np.abs(R - Kd[np.ix_(free, free)]) / den).max()) <= 1e-6:
+            if ok2 and float((np.abs(R - Kd[np.ix_(free, free)]) / den).max()) <= RICH:
                 mech = nm
     c.expect('cone k0 converges to the continuous-radius energy like s^-2', rates_ok, 'errors for s=10,20,40,80: %r' % (errs,), mechanism=mech)
-    c.judge('Richardson limit of the sectioned cone k0 equals the energy Hessian', rich, 1e-6, mechanism=mech)
+    c.judge('Richardson limit of the sectioned cone k0 equals the energy Hessian', rich, RICH, mechanism=mech)
     return c
 
 
